@@ -489,3 +489,27 @@ Example C16_example :
   md_precheck wrapped_doc = false /\ md_precheck wrapped_doc_moved = false /\ md_precheck wrapped0_doc = false.
 Proof. vm_compute. repeat split; try reflexivity. eexists; reflexivity. Qed.
 Print Assumptions C16_example.
+
+(* GLUE to C03 / C08 / C10 / C17 (Proofs/Glue_certs.v, docs/Glue.md): the certificates certs(eid, any, use) serves are
+   the ones Model/CertSelect.v's md_certs - the function signatures are checked under and assertions are encrypted
+   for - computes on this store read as a CertSelect store (certificate texts numbered by their position in the
+   list of all texts of the store): same certificates, same order, same duplicates dropped. *)
+From PV Require Model.CertSelect Proofs.Glue_certs.
+Theorem C16_certs_is_the_function_signatures_are_checked_under :
+  forall st eid use l,
+    let num := Glue_certs.num_of (Glue_certs.store_texts st) in
+    store_certs st eid (s2l "any") use = Ok l ->
+    CertSelect.md_certs (Glue_certs.abs_store num st) (Some eid) use = Some (map num l).
+Proof. intros st eid use l. exact (Glue_certs.md_certs_agree_canonical st eid use l). Qed.
+Print Assumptions C16_certs_is_the_function_signatures_are_checked_under.
+
+(* GLUE to C01 (Proofs/Glue_xsw.v): the pre-check of parse_and_check_signature (Model/MdSig.v md_precheck) is, on the
+   document embedded into C01's document model, either "the single Reference is to the whole document" or C01's
+   pre-check (sigver._enveloped_signature_ok) for the root element under its own name and ID. *)
+From PV Require Model.Xsw Proofs.Glue_xsw.
+Theorem C16_md_precheck_is_C01_precheck_on_the_root :
+  forall n i pl kids,
+    md_precheck (El n i pl kids) =
+    Glue_xsw.whole_ref (El n i pl kids) || Xsw.precheck (Glue_xsw.emb (El n i pl kids)) (N.succ n) i.
+Proof. exact Glue_xsw.md_precheck_char. Qed.
+Print Assumptions C16_md_precheck_is_C01_precheck_on_the_root.
